@@ -53,13 +53,18 @@ def _jaqal_probe_spec_relative(mod_name, search_path):
         egg_version = egg_regexp.match(candidate)
         if egg_version:
             # TODO: Also check groups()[1] for Python version compatibility
-            try_eggs.append((version.parse(egg_version.groups()[0]), candidate))
+            try:
+                parsed = version.parse(egg_version.groups()[0])
+            except ValueError:
+                # Not one of ours: the part after the name is not a version
+                continue
+            try_eggs.append((parsed, candidate))
 
     if not try_eggs:
         raise ImportError(f"Unable to find module {mod_name}")
 
     return importlib.util.spec_from_loader(
-        mod_name, zipimporter(search_path / max(try_eggs)[1])
+        mod_name, zipimporter(str(search_path / max(try_eggs)[1]))
     )
 
 
